@@ -5,6 +5,7 @@ import Fdo.Drv.Prim
 import Fdo.Drv.Kex
 import Fdo.Drv.Voucher
 import Fdo.Drv.TO0
+import Fdo.Drv.TO1
 import Fdo.Drv.Chunk
 import Fdo.Drv.Rv
 /-
@@ -22,6 +23,7 @@ def handlers : List (String × (String → List String → Option String)) := [
   ("kex.", Drv.Kex.handle),
   ("voucher.", Drv.Voucher.handle),
   ("to0.", Drv.TO0.handle),
+  ("to1.", Drv.TO1.handle),
   ("chunk.", Drv.Chunk.handle),
   ("rv.", Drv.Rv.handle),
 ]
